@@ -204,6 +204,31 @@ func (k *keyring) addDerived(label string, priv crypto.PrivateKeyI, pubs ...[]by
 	}
 }
 
+// addLowOrder adds the keys that follow if a low-order ephemeral key lp is NOT rejected: whatever
+// scalar the honest endpoint multiplies it with, the product is one of the eight small-order points
+// (or the all-zero string of an X25519 ladder), so the attacker simply tries all of them, in both key
+// roles, against every public key seen on the wire.
+func (k *keyring) addLowOrder(label string, lp []byte, pubs ...[]byte) {
+	cands := [][]byte{make([]byte, 32)}
+	for _, e := range edwardsLowOrder[:8] {
+		cands = append(cands, e)
+	}
+	for ci, sec := range cands {
+		for qi, q := range pubs {
+			if len(q) != 32 {
+				continue
+			}
+			for ri, pair := range [][2][]byte{{lp, q}, {q, lp}} {
+				a, b, _, e := crypto.HKDFSecretsAndChallenge(sec, pair[0], pair[1])
+				if e == nil {
+					k.add(fmt.Sprintf("%s/low%d/%d/%d/a", label, ci, qi, ri), a)
+					k.add(fmt.Sprintf("%s/low%d/%d/%d/b", label, ci, qi, ri), b)
+				}
+			}
+		}
+	}
+}
+
 // tryOpen reports the first key/nonce that decrypts the frame.
 func (k *keyring) tryOpen(frame []byte) (string, []byte, bool) {
 	for i, a := range k.aeads {
